@@ -1,6 +1,7 @@
 """C16 Arithmetic and term-inspection builtins match Yap/SWI semantics (E4: CrossHair, operands symbolic)."""
 from vlib import xh
 from vlib.common import Run, Stats
+from vlib.shims import SHIM_SOURCE
 
 FUNCS = ["problog.logic._arithmetic_functions (every entry exercised through compute_function)", "problog.logic.compute_function",
          "problog.engine_builtin.{_builtin_is,_builtin_lt,_builtin_le,_builtin_gt,_builtin_ge,_builtin_val_eq,_builtin_val_neq}",
@@ -15,13 +16,8 @@ from problog.logic import Term, Constant, compute_function, ArithmeticError as P
 from problog.errors import ProbLogError
 from problog.engine_unify import UnifyError
 from vlib import arith_ref as R
+''' + SHIM_SOURCE + '''
 
-
-def _int(x=0, *a):
-    # int(Constant(<symbolic int>)) cannot go through __int__ under CrossHair: read the value directly
-    if type(x) is Constant and not isinstance(x.functor, (float, str)):
-        return x.functor
-    return builtins.int(x, *a)
 
 
 eb.int = _int
